@@ -5,19 +5,21 @@ open Retro Retro.Render Retro.Drv Retro.Drv.RenderCommon
 
 def handle (case impl : List String) : Verdict :=
   let painter := case.contains "painter=1"
+  let painter2 := case.contains "painter=2"
   let s := parseScene (case.filter fun t => !t.startsWith "painter=")
   -- the last two sections belong to this property
   let secs := splitBars impl
   let io := parseImpl (String.intercalate " | " ((secs.take 5).map fun l => String.intercalate " " l) |>.splitOn " ")
   if nonFiniteInput s io then bad "non-finite scene" else
-  let v := Verdict.ok ([s!"tris-{s.tris.length}", if painter then "painter" else "zbuffer"] ++ sceneTags s io)
+  let v := Verdict.ok ([s!"tris-{s.tris.length}", if painter then "painter" else if painter2 then "painter-ortho" else "zbuffer"] ++ sceneTags s io)
   match io.panic with
   | some msg => (v.withDiff true "implementation panicked").withSpec true "render-panic" s!"render panicked: {msg}"
   | none =>
     let tris := screenTris s io
     let frs := modelFragDepths s tris
     let depthAmb := fun px py => depthMasked (1/1000) frs px py
-    let masked := fun px py => edgeMasked (1/50) tris px py || depthAmb px py
+    -- painter-ortho scenes have a degenerate depth buffer (1/w = 1 everywhere): draw order decides, not depth
+    let masked := fun px py => edgeMasked (1/50) tris px py || (!painter2 && depthAmb px py)
     let v := match runModel s io with
       | .panic msg => v.withDiff true s!"model panics ({msg}), implementation does not"
       | .ok (t, _) =>
@@ -38,6 +40,14 @@ def handle (case impl : List String) : Verdict :=
         else v.withSpec true "order-dependence"
           s!"{nd} of {nh} histories give different buffers; first at pixel ({px},{py}) with history {hsec.getD 4 "?"}"
     let psec := secs.getD 6 []
+    -- painter configuration against itself: every submission order must give the same buffers
+    let npp := (psec.getD 4 "0").toNat?.getD 0
+    let npd := (psec.getD 5 "0").toNat?.getD 0
+    let v := if npp > 0 then v.addTag "painter-permutations" else v
+    let v :=
+      if npd == 0 then v
+      else v.withSpec true "painter-order-dependence"
+        s!"{npd} of {npp} submission orders give a different image under depth_sort BackToFront without depth test; first at pixel ({psec.getD 6 "?"},{psec.getD 7 "?"})"
     if psec.getD 0 "0" == "1" && psec.getD 1 "1" != "1" then
       let px := (psec.getD 2 "0").toNat?.getD 0
       let py := (psec.getD 3 "0").toNat?.getD 0
